@@ -616,8 +616,8 @@ func (rw *rewriter) goStmt(g *ast.GoStmt) ast.Stmt {
 		rw.errorf(g, "go statement with variadic spread is not supported")
 		return g
 	}
-	if len(call.Args) > 6 {
-		rw.errorf(g, "go statement with more than 6 arguments is not supported")
+	if len(call.Args) > 9 {
+		rw.errorf(g, "go statement with more than 9 arguments is not supported")
 		return g
 	}
 	if sig, ok := rw.typeOf(call.Fun).(*types.Signature); ok && sig.Results().Len() > 0 {
@@ -762,6 +762,11 @@ func (rw *rewriter) selectStmt(s *ast.SelectStmt) ast.Stmt {
 	hd := ast.NewIdent("false")
 	if hasDefault {
 		hd = ast.NewIdent("true")
+	} else {
+		// a select whose clauses all end in terminating statements is itself terminating;
+		// the switch only is with a default clause (never taken: Index is one of the cases)
+		clauses = append(clauses, &ast.CaseClause{List: nil, Body: []ast.Stmt{&ast.ExprStmt{X: &ast.CallExpr{
+			Fun: ast.NewIdent("panic"), Args: []ast.Expr{&ast.BasicLit{Kind: token.STRING, Value: strconv.Quote("vsched: select resolved to no case")}}}}}})
 	}
 	args := append([]ast.Expr{hd}, cases...)
 	return &ast.SwitchStmt{
